@@ -3,6 +3,8 @@ import Driver.Conn
 import Driver.Viso
 import Driver.Tools
 import Driver.C13
+import Driver.Admission
+import Driver.Timeout
 /-! `vmodel`: the line-protocol driver over the executable Lean model.
     One case per input line (`<stream> <args…>`), one predicted observation per output line. -/
 namespace Driver
@@ -19,7 +21,11 @@ def dispatch (line : String) : String :=
     | "viso" => visoOp args
     | "mkiso" => mkisoOp args
     | "dec" => decOp args
+    | "fileops" => fileopsOp args
     | "c13" => c13Op args
+    | "c15w" => c15wOp args
+    | "c15l" => c15lOp args
+    | "c16" => c16Op args
     | "c13end" => c13endOp args
     | "real" => realOp args
     | _ => "bad-op"
